@@ -32,7 +32,8 @@ SCALAR_PATHS = [
 STR_PATHS = ["s", "t", "u", "o.b"]  # always strings
 KEY_PATHS = ["n", "m", "s", "t", "u", "o.a", "o.b", "b", "nn", "zz", "fl"]  # always hashable
 LIST_PATHS = ["l", "ls", "ll", "o.c", "e"]
-DICT_PATHS = ["d", "dx", "o.d", "ed"]  # pairwise disjoint key sets, no ':' in keys (top-level spreads)
+DICT_PATHS = ["d", "dx", "o.d", "ed", "dv"]  # pairwise disjoint key sets; only dv has ':' in keys: LEADING-colon keys
+# (`:href`, `:xlink:href`, Vue/Alpine bindings), which the library states it never splits into aggregates
 INNER_DICT_PATHS = DICT_PATHS + ["dc"]  # dc has ':' keys; only spread inside dict literals
 OTHER_PATHS = ["o", "o.o", "ll.0"]
 ANY_PATHS = SCALAR_PATHS + LIST_PATHS + INNER_DICT_PATHS + OTHER_PATHS
@@ -41,6 +42,7 @@ D_KEYS = ["a", "b", "c"]
 DX_KEYS = ["a-b", "@c", "x y", "1", "#h.i"]
 OD_KEYS = ["p", "q"]
 DC_KEYS = ["x:y", "attrs:z", ":w"]
+DV_KEYS = [":href", ":xlink:href", ":a:b:c"]
 
 PLAIN_KEYS = ["k", "k2", "key", "data", "class", "title", "a_b", "_x", "K9"]
 SPECIAL_KEYS = ["my-date", "@click.native", "#some_id", "data-id", "x.y", "@a-b_c.d#e", "-z", ".dot", "_"]
@@ -808,6 +810,7 @@ def context_strategy():
             "d": subset_dict(D_KEYS, scalar),
             "dx": subset_dict(DX_KEYS, scalar),
             "dc": subset_dict(DC_KEYS, scalar),
+            "dv": subset_dict(DV_KEYS, scalar),
             "ed": st.just({}),
             "o": st.fixed_dictionaries(
                 {
@@ -957,11 +960,24 @@ def _tpl():
             txt.map(lambda c: {"t": "cmt", "v": c.replace("#", "")}),
         )
         dynamic = {"expr", "raw", "cat", "if", "cmt"}
-        return (
+        normal = (
             st.lists(part, min_size=1, max_size=4)
             .filter(lambda ps: any(p["t"] in dynamic for p in ps))
             .map(lambda ps: {"t": "tpl", "q": q, "parts": ps})
         )
+        # a stray, never closed opener of one tag kind in front of complete tags of the OTHER kinds: the stray opener
+        # is plain text for Django's lexer, the string is still a nested template (built constructively: the parts
+        # that follow never contain the closer of the stray kind)
+        text_p = txt.map(lambda c: {"t": "text", "v": c})
+        if_p = st.tuples(st.sampled_from(SCALAR_PATHS + LIST_PATHS), txt, st.one_of(st.none(), txt)).map(lambda cab: {"t": "if", "c": cab[0], "a": cab[1], "b": cab[2]})
+        cmt_p = txt.map(lambda c: {"t": "cmt", "v": c.replace("#", "")})
+        stray_var = st.tuples(st.sampled_from(["{{ ", "{{", "a {{ b "]), st.lists(st.one_of(text_p, if_p, cmt_p), min_size=0, max_size=2), st.one_of(if_p, cmt_p)).map(
+            lambda t3: {"t": "tpl", "q": q, "parts": [{"t": "text", "v": t3[0]}] + t3[1] + [t3[2]]}
+        )
+        stray_blk = st.tuples(st.sampled_from(["{% ", "{%", "x {% y "]), st.lists(st.one_of(text_p, cmt_p), min_size=0, max_size=2), cmt_p).map(
+            lambda t3: {"t": "tpl", "q": q, "parts": [{"t": "text", "v": t3[0]}] + t3[1] + [t3[2]]}
+        )
+        return st.one_of(normal, normal, normal, normal, stray_var, stray_blk)
 
     strat = st.one_of(for_quote('"'), for_quote("'"))
     _strat_cache["tpl"] = strat
